@@ -13,6 +13,11 @@ SPEC = {
                  'C16_sign_then_verify_message_exact',
                  # extension: Signature.ty / sender
                  'C16_ty_only_selects_driver', 'C16_sender_bound_refuted', 'C16_sender_bound_partial',
+                 # From() and the sender gate of Transaction.CheckSign (finding 11 repaired, /repo 909acb0)
+                 'C16_from_total', 'C16_checksign_is_gate_and_driver', 'C16_unusable_addr_id_rejected',
+                 'C16_accepted_has_sender', 'C16_sign_then_verify_tx', 'C16_altered_fails_tx_partial',
+                 'C16_disabled_or_unsigned_fails_tx', 'C16_ty_selects_driver_and_sender',
+                 'C16_checksign_tx_ignores_unknown_fields',
                  # extension: secp256k1eth note mode
                  'C16_eth_same_action_same_verdict', 'C16_eth_unbound_outer_fields', 'C16_eth_accepted_binds',
                  'C16_eth_altered_fails_refuted', 'C16_eth_unbound_outer_fields_ok',
@@ -43,7 +48,9 @@ SPEC = {
             'against the stripped message, CheckSign; resign = such a message signed again through a key wrapper that records '
             'the bytes Sign hands to the key, then CheckSign; from-* = per driver, honest types with address id 0..7, then ty '
             'with every other address id, bits 30 / 31 / 15 / 16, another driver, negative height: CheckSign and From() '
-            '(string or panic); action* = secp256k1eth/types.DecodeTxAction on encoded transactions (execers with / without '
+            '(string or panic); fromany-* = presented transactions without an honest signer behind them: per driver the crypto id, '
+            'the id with bit 30, an unknown id and "none", each with address id 0..7 and the signer\'s key / no key / one byte / '
+            '65 random bytes, plus a transaction without Signature: From() first (as mempool.checkTx asks), then CheckSign; action* = secp256k1eth/types.DecodeTxAction on encoded transactions (execers with / without '
             '"evm", EVM actions with every note spelling, coins actions with merged / replaced oneof members, invalid UTF-8, '
             'unknown / repeated / malformed fields); eth-* = Ethereum transactions (legacy transfer / call / create, dynamic-fee, '
             'access-list) signed with a fresh key and wrapped as rpc/ethrpc AssembleChain33Tx does, CheckSign unchanged at 4 '
@@ -69,7 +76,10 @@ SPEC = {
         'ExecAddress(execer) and the two inner verdicts (over Keccak(msg) / over the signing hash) to the model, which decides '
         'which one VerifyBytes uses and which cross-checks apply; DecodeTxAction itself is modelled and compared directly',
         'extension (From): which address ids have a driver that derives an address from a public key is probed by the harness '
-        '(address.PubKeyToAddr under recover) and given to the model; address strings are compared for equality only',
+        '(address.PubKeyToAddr under recover) and given to the model; that the eth driver (id 2) panics on an empty key is '
+        'written into the check (SpecExt.adrv_of); address strings are compared for equality / emptiness only. In the '
+        'theorems the address drivers are an arbitrary function adrv : id -> key -> {no driver, panic, address}; that the '
+        'deferred recover in Transaction.fromAddr confines every driver panic is Go semantics, checked case by case',
     ],
     'assumptions': [
         'no executor-specific crypto driver override (ExecutorType.GetCryptoDriver returns ErrNotSupport, the ExecTypeBase default)',
@@ -82,12 +92,18 @@ SPEC = {
         'negative block heights bypass the enable check (crypto.WithLoadOptionEnableCheck) - modelled, outside the spec oracle',
         'Signature.Ty bits outside CryptoIDMask 0x3fff8fff (address id bits 12-14, bits 30-31) do not select the driver: in the '
         'original CVerify stream a changed ty that still names an enabled driver is not judged; the CFrom stream judges it (a '
-        'changed ty naming the same driver must fail: finding 10; an accepted transaction must have a sender: finding 11)',
+        'changed ty naming the same driver must fail: finding 10; From() never panics and an accepted transaction has a sender '
+        'derived by a driver: finding 11, repaired in /repo 909acb0 - a panic or a sender-less acceptance is a violation again)',
+        'C16_sign_then_verify_tx carries the guard usable adrv ty pub = true: a signature type whose address format has no '
+        'driver is not a type to sign with (C16_unusable_addr_id_rejected: it is refused for the honest signer as well); '
+        'the theorems stated on check_sign (the part of CheckSign after the sender gate: signature present, types.CheckSign) '
+        'carry over through C16_checksign_is_gate_and_driver',
     ],
     'manifest': {
         'level_text': 'partial: encoding injectivity, hash/fullhash/clone clauses proved unbounded for the model (SHA-256 assumed '
                       'injective); signature clauses proved for an ideal signature functionality, alteration of the signature bytes '
-                      'only up to the scheme malleability relation (full-strength statement refuted; six malleability findings recorded)',
+                      'only up to the scheme malleability relation (full-strength statement refuted; six malleability findings recorded); '
+                      'From() total and CheckSign refusing types without a derivable sender proved at full strength (finding 11 repaired)',
         'level_note': 'trusted: SHA-256 injectivity, ideal signature functionality in place of the drivers (their verdict is an oracle '
                       'in the correspondence check), golang/protobuf as encoding oracle',
         'technique': 'Coq proof (decoder round trip => injectivity; ideal-functionality argument) + in-kernel byte-exact correspondence check',
